@@ -123,9 +123,12 @@ CLAIMS = {
              "index); RETR/TOP open exactly that message's file, never a deleted one; no verb other than QUIT unlinks or "
              "renames; blast() (loop contract, any number and length of lines): every stored line once, unchanged, CR LF "
              "appended, dot-stuffed, TOP limited to header + n body lines, blank line and lone dot at the end; main refuses "
-             "to run as root first. Bounded stand-in: QUIT removes exactly the marked messages for <= 6 messages.",
-        note="The correspondence of the start-up list with the directory (maildir_scan) and qmail-popup's pre-authentication "
-             "dialogue are not covered; getln/scan_ulong are used through their contracts.",
+             "to run as root first. qmail-popup: a refused USER has no effect, PASS only after an accepted USER, APOP split at the "
+             "first space, credentials handed to the checker as user NUL password NUL <timestamp> NUL in that order and "
+             "verbatim, and the pre-authentication table holds only USER, PASS, APOP, QUIT, NOOP. Bounded stand-in: QUIT "
+             "removes exactly the marked messages for <= 6 messages.",
+        note="The correspondence of the start-up list with the directory (maildir_scan) is not covered; commands() (line framing and "
+             "dispatch) is not under contract; getln/scan_ulong are used through their contracts.",
         design_ref="DESIGN.md section 5 C19"),
     "C02": dict(
         text="NARROW claim - the sequential, per-process core only. Proof (CBMC) that every queue mutation of qmail-queue "
